@@ -23,7 +23,7 @@ class C11(Prop):
     MODES = ("url", "mixed", "raw")
     LONG_BIAS = 0.3
     WEIGHTS = {"page": 4, "pages": 2, "links": 3, "batch": 3, "again": 1, "create": 2, "delete": 1, "addprefix": 1,
-               "rmprefix": 1, "move": 1, "rule": 2, "unrule": 1, "reopen": 5, "clear": 1}
+               "rmprefix": 1, "move": 1, "rule": 2, "unrule": 1, "reopen": 5, "clear": 1, "recreate": 1}
     QUICK = (40, 18)
     THOROUGH = (130, 36)
     ASSUMPTIONS = ["'same rules re-supplied' = the anchored rules currently installed, passed to the constructor on reopen"]
@@ -80,12 +80,17 @@ class C11(Prop):
                 ctx.fail("reopen-changes-bytes", "a second close + reopen with no request in between changed the stores", case)
             if st["writes"]:
                 st["reopen-after-writes"] = True
-        elif kind == "clear":
+        elif kind in ("clear", "recreate"):
             if out.status != "ok":
-                ctx.fail("clear-failed", "clear refused: %r" % (out.exc,), case)
+                ctx.fail("clear-failed", "%s refused: %r" % (kind, out.exc), case)
             A.destroy()
             case.resources.remove(A)
-            A = Index(Config(backend="file", overwrite=True, default_rule=op[1], rules={a: n for a, n in op[2]},
+            if kind == "clear":
+                new_default, new_rules = op[1], {a: n for a, n in op[2]}
+            else:
+                # constructing again on the populated folder with overwrite=True: must equal a fresh index with the same rules
+                new_default, new_rules = case.idx.default_rule, {case.idx.rule_keys.get(a, a): n for a, n in case.idx.rules.items()}
+            A = Index(Config(backend="file", overwrite=True, default_rule=new_default, rules=new_rules,
                              encoding=case.config.encoding))
             case.resources.append(A)
             st["A"] = A
@@ -103,7 +108,7 @@ class C11(Prop):
                 case.flag("reopen-with-writes-before-and-after")
             if st.get("cleared"):
                 case.flag("writes-after-clear")
-        if kind == "clear":
+        if kind in ("clear", "recreate"):
             st["cleared"] = True
         if blind:
             return
@@ -131,6 +136,7 @@ class C11(Prop):
             w = dict(self.weights())
             w["reopen"] = 0
             w["clear"] = 0
+            w["recreate"] = 0
             # draw the history once, against a scratch index
             base = _PlainCase(self, ctx, cfg, v)
             try:
